@@ -75,6 +75,9 @@ var FastaParser = pars.Seq(
 	desc := string(result.Children[1].Token)
 	body := result.Children[2].Token
 	lines := bytes.Split(body, []byte{'\n'})
+	for i, line := range lines {
+		lines[i] = bytes.TrimSuffix(line, []byte{'\r'})
+	}
 	data := bytes.Join(lines, nil)
 	result.SetValue(Fasta{desc, data})
 	return nil
